@@ -195,3 +195,31 @@ prop(
     floors=[dict(stage="lin", key="histories_with_overlapping_ops_on_a_key", min=10000), dict(stage="lin", key="evictions_observed", min=10000), dict(stage="lin", key="porcupine_ok", min=14000), dict(stage="stress", key="stress_operations", min=500_000)],
     assumptions=["the Go scheduler is not controllable: reach comes from many short histories, barriers, yields and the race detector's happens-before analysis", "Clear is checked per key (copied into every partition), which is sound but weaker than global atomicity"],
 )
+
+prop(
+    "C17",
+    "two kinds of monitors. Stress under `go test -race` (real scheduler): rounds with a start barrier, 2..64 goroutines calling Get over 1..4 keys of a fresh OnceConstructor whose constructor counts invocations per key, yields and returns a "
+    "fresh pointer (count==1, pointer identity for all and late callers; the constructor measures how many callers were inside its window); semaphore workers loop Acquire -> holders++ (assert <= n, track max) -> yield -> holders-- -> Release "
+    "with background / cancelled / expiring / concurrently cancelled contexts. synctest bubbles (logical quiescence, no wall clock): every arrival order of up to 5(7) callers over up to 3 keys x every subset of keys whose construction is parked "
+    "on a gate - at quiescence callers of other keys must have returned, parked constructors ran once, their callers are blocked, and after the gates open all hold one object; every script of up to 5(6) steps over 8 semaphore actions for "
+    "capacity 0..3, judged after every step (holders <= n, blocked iff no free slot, ctx error once done, Release never blocks). A bubble scenario / stress round is one case (scenarios distinct by construction)",
+    [st("once_stress", "c17", "TestOnceStress", race=True, timeout_q=600, timeout_t=2400), st("sema_stress", "c17", "TestSemaStress", race=True, timeout_q=600, timeout_t=2400),
+     st("once_bubble", "c17", "TestOnceBubble", synctest=True, timeout_q=600, timeout_t=2400), st("sema_bubble", "c17", "TestSemaBubble", synctest=True, timeout_q=600, timeout_t=2400)],
+    floors=[dict(stage="once_stress", key="rounds_with_two_or_more_callers_inside_a_construction_window", min=5_000), dict(stage="sema_stress", key="runs_where_holders_reached_capacity", min=12),
+            dict(stage="once_bubble", key="scenarios", min=1_000), dict(stage="sema_bubble", key="scenarios", min=10_000)],
+    assumptions=["testing/synctest (GOEXPERIMENT=synctest, Go 1.24.2) gives exact quiescence for channel/timer/cond blocking; blocking it cannot see is caught by the bounded-progress watchdog", "only holders release; a spurious Release is exercised on an idle semaphore only"],
+)
+
+prop(
+    "C18",
+    "online trace-specification monitor inside synctest bubbles: instrumented services / refresher / error handler / schedule (unique durations) / clock (fresh channel per After, logs d) / context constructor (unique ids, logs cancel) write one ordered "
+    "event log; events (signals, ticks, Shutdown) are injected only at bubble quiescence and the log segment produced by each is checked: no Shutdown before the first shutdown signal, Handle returns only then, every service shut down exactly "
+    "once in reverse order whatever the outcomes (nil / error / panic / blocks until the timeout), status Success iff all nil; per tick exactly one constructor context -> one Refresh with it -> cancelled, the error handed to the handler "
+    "exactly once, the schedule consulted once afterwards and After called with exactly its answer, nothing after Shutdown except the single final Refresh whose error Shutdown wraps, the worker goroutine gone (else the bubble deadlocks). "
+    "A scenario (outcome vector + signal script / tick-outcome sequence + shutdown options) is one case, distinct by construction",
+    [st("signal", "c18", "TestSignal", synctest=True, timeout_q=600, timeout_t=2400), st("refresh", "c18", "TestRefresh", synctest=True, timeout_q=600, timeout_t=2400),
+     st("race_aux", "c18", "TestRaceAux", race=True, timeout_q=600, timeout_t=2400)],
+    floors=[dict(stage="signal", key="scenarios", min=15_000), dict(stage="refresh", key="scenarios", min=10_000)],
+    assumptions=["events are injected at quiescence: a tick racing with Shutdown under the real scheduler is an acknowledged TODO in the code and not what the property quantifies over",
+                 "testing/synctest of Go 1.24.2 (GOEXPERIMENT=synctest); the relative order of context cancellation and error handling inside one refresh is not constrained"],
+)
